@@ -94,7 +94,12 @@ def build(rng):
             skeleton.append({'k': 'USE'})
     if not any(it['k'] == 'USE' for it in skeleton):
         skeleton.append({'k': 'USE'})
-    skeleton = [{'k': 'label', 'name': 'S'}] + skeleton
+    farabs = rng.random() < 0.25
+    if farabs:
+        # far call / tail (auipc + jalr, to an absolute address) in front of the labels and their uses
+        for _ in range(rng.randint(1, 3)):
+            skeleton.insert(rng.randrange(0, max(1, len(skeleton) // 2)), {'k': 'pseudo', 'm': rng.choice(['tail', 'call']), 'ops': [{'t': 'FARABS'}]})
+    skeleton = ([{'k': 'const', 'name': 'FARABS', 'value': 0x20000000, 'text': '0x20000000'}] if farabs else []) + [{'k': 'label', 'name': 'S'}] + skeleton
     # pessimistic offsets
     pos = 0
     pess = {}
